@@ -192,6 +192,11 @@ void describe_msg(Case& c, Rng& r) {
     n = 500 + (int64_t)r.below(3600);
   c.set("mlen", n);
   c.setu("mseed", r.next() >> 16);
+  uint64_t v = r.next();
+  if (n == 0 && (v & 1))
+    c.set("mnull", 1); // the empty message as (NULL, 0)
+  else if (n > 0 && (v & 6) == 6)
+    c.setu("malign", v >> 8); // the message at an odd address
 }
 
 // ------------------------------------------------------------------ key structures
@@ -453,7 +458,7 @@ Outcome run_op(const Case& c, TaskCtx& t) {
   t.cur_op = c.op();
   configure_env(t, c);
   if (!G.solo_pass && c.has("f.stack")) {
-    stack_poison((uint8_t)c.i("f.stack"));
+    stack_poison((uint8_t)c.i("f.stack"), 512 * 1024);
     if (t.stats)
       t.stats->hit("fault.stack_poison");
   }
